@@ -140,6 +140,7 @@ pub fn run_sub<const B: u32>(exec: &dyn Executable<SymCell<B>>, mode: Mode, no_i
         c.reset_io();
         c.seam_errors.clear();
         c.width = B as u8;
+        c.no_output = no_output;
     });
     let input: Option<Box<dyn std::io::Read>> = if no_input { None } else { Some(Box::new(LogReader)) };
     let output: Option<Box<dyn std::io::Write>> = if no_output { None } else { Some(Box::new(LogWriter)) };
